@@ -21,7 +21,7 @@ Proof. exact (cm_compress_nomatch_best parse rules packet d fs pl). Qed.
 Theorem c15_unparsable parse rules packet d st e : parse packet = Exc e -> cm_compress parse rules packet d st = Exc e.
 Proof. exact (cm_compress_parse_error parse rules packet d st e). Qed.
 (* no rule id leads the SCHC packet: the rule-ID error *)
-Theorem c15_noid ct rules s d : rules <> [] ->
+Theorem c15_noid ct rules s d :
   (forall r, In r rules -> is_prefix (rule_id r) s = false) -> cm_decompress ct rules s d = Exc RuleIDMatchError.
 Proof. exact (cm_decompress_noid ct rules s d). Qed.
 (* the front end tries the contexts in order, skips those that signal such an error ... *)
@@ -60,7 +60,7 @@ Theorem c15_nomatch_bytes s rules b d st bfs bpl :
   filter (spec_rule_applies (abs_pdesc abs (mkbpdesc d bfs bpl))) (map (abs_rule abs) rules) = [] ->
   bcm_compress (bfactory s) rules b d st = Exc RuleDescriptorMatchError.
 Proof. exact (bytes_nomatch_factory s rules b d st bfs bpl). Qed.
-Theorem c15_noid_bytes rules s d : rules <> [] -> Forall canon_rule rules -> canon s ->
+Theorem c15_noid_bytes rules s d : Forall canon_rule rules -> canon s ->
   (forall r, In r rules -> is_prefix (abs (brule_id r)) (abs s) = false) ->
   bmatch_schc_packet rules s = Exc RuleIDMatchError /\ bcm_decompress rules s d = Exc RuleIDMatchError.
 Proof. exact (bytes_noid rules s d). Qed.
